@@ -8,10 +8,10 @@ props = [json.loads(l) for l in open(os.path.join(V, "properties.jsonl"))]
 NOTE = {
  "C20": "PARTIAL: proof covers the shape-strictness clause (generic shape-check model theorems + contracts re-extracted from the source on every run); the stacked=row-by-row clause is proved per function in the other properties and validated here over the whole API; purity/determinism are validated only (a Gallina function cannot mutate its argument).",
  "C10": "PARTIAL: properness, axis, perpendicular turn, round trips (generic + half-turn), norm bound, Jacobian composition and dispatch are proved; 'forward Jacobian equals the derivative' and the 2.5e-5 snapping tolerance are sampled by the oracle only (finite differences).",
- "C09": "PARTIAL: refinement of every operation to the list-of-points spec is proved for all arguments except the sort-based insertion (proved for all sizes for the original-vertices map, by exhaustive computation for n<=5 for the rest) and aligned_with's sign argument; immutability/aliasing are validated by the harness, not proved.",
+ "C09": "Refinement of every listed operation (incl. the sort-based insertion and both index maps, for all sizes) and of every finite history to the list-of-points spec is proved; PARTIAL only in that immutability/aliasing (not a Gallina notion) is validated by the harness, not proved.",
  "C07": "PARTIAL: nearest/closest-point clauses proved for all inputs; sub-path clauses proved under explicit simplicity hypotheses (open polylines); one known finding (ret_t_values alone) pinned by the test-suite.",
  "C08": "PARTIAL: arc-length and subdivision clauses proved; total-length preservation and continuity are checked by the oracle only.",
- "C19": "PARTIAL: round trips, validator characterisation and rounding error proved; that Plane.rounded always succeeds for every unit normal at every precision is checked by correspondence only.",
+ "C19": "Round trips, rounding error, success of rounded/serialize for every unit normal and every precision, and validator soundness are proved; the json text round trip and the jsonschema library are trusted.",
  "C17": "PARTIAL: tightness, accessors, planes, contains, extent proved for all inputs; percentile interpolation value proved for integer virtual index only; the 'few units of rounding' clause is a float clause sampled by the oracle.",
 }
 checks = []
